@@ -40,6 +40,11 @@ func (c *fnCtx) call(in ssa.Instruction, cc *ssa.CallCommon, rt types.Type) *Val
 		return c.result(rt, "dyn")
 	}
 	name := callee.String()
+	if !(strings.HasSuffix(name, "ndian).PutUint16") || strings.HasSuffix(name, "ndian).PutUint32") || strings.HasSuffix(name, "ndian).PutUint64") || name == "io.ReadFull") {
+		if !(c.eng.isModule(callee) && callee.Blocks != nil && c.eng.contractOf(callee) == nil && c.canInline(callee)) {
+			c.callFrame(in, callee, cc, args)
+		}
+	}
 	// 1. written contract
 	if ct := c.eng.contractOf(callee); ct != nil && !ct.Inline {
 		return c.applyContract(in, callee, ct, cc, args, rt)
@@ -55,6 +60,13 @@ func (c *fnCtx) call(in ssa.Instruction, cc *ssa.CallCommon, rt types.Type) *Val
 	if c.eng.isModule(callee) && callee.Blocks != nil {
 		if c.canInline(callee) {
 			return c.inline(in, callee, closure, args, rt)
+		}
+		// handing the packet builder to another decoder-kind function is a tail event of the protocol
+		for _, a := range cc.Args {
+			if strings.HasSuffix(a.Type().String(), "gopacket.PacketBuilder") && pbStructural(c.eng.pbUses(callee, 0)) {
+				c.pbEvent(in, "NextDecoder", cc, args)
+				break
+			}
 		}
 		c.passedPtrEffects(cc, args)
 		c.havocSet(c.eng.fnMods(callee))
